@@ -44,8 +44,8 @@ import re
 from ..cfg import CFG
 from ..core import (AnalysisError, call_name, const_str, find_calls, kwarg,
                     last_attr, names_in, short, txt, walk)
-from ..lib_C11 import (NP, ClassModel, Func, Interp, ModelRaise, Namespace,
-                       NdArray)
+from ..lib_C11 import (NP, ClassModel, Func, Interp, ModelRaise,
+                       ModuleInterp, Namespace, NdArray, module_level)
 
 ASSUMPTIONS = [
     "NOT decided: the closure 'whatever the writer/export/CLI produce is "
@@ -172,6 +172,49 @@ def fold_config_keys(repo):
     return out
 
 
+FL = "dclab/definitions/feat_logic.py"
+
+
+def load_feature_logic(repo):
+    """dclab.definitions.feat_logic interpreted (feat_const replaced by the
+    model's feature names; the stdlib `re` module is the real one)"""
+    import re
+
+    def importer(mod, level, name):
+        if level == 0 and mod == "re":
+            val = Namespace("re", compile=re.compile, match=re.match,
+                            fullmatch=re.fullmatch, search=re.search)
+        elif level == 1 and (mod == "feat_const" or name == "feat_const"
+                             or mod is None):
+            scal = sorted(KNOWN_FEATURES - {"image", "mask", "trace",
+                                            "contour"})
+            val = Namespace(
+                "feat_const", scalar_feature_names=scal,
+                feature_names=sorted(KNOWN_FEATURES),
+                feature_labels=[f"label {f}" for f in sorted(
+                    KNOWN_FEATURES)],
+                feature_name2label={f: f"label {f}" for f in
+                                    KNOWN_FEATURES},
+                FEATURES_SCALAR=[[f, f"label {f}"] for f in scal],
+                FEATURES_NON_SCALAR=[], FLUOR_TRACES=[])
+            if mod == "feat_const" and name is not None:
+                return getattr(val, name)
+            return val
+        else:
+            raise AnalysisError(f"feat_logic imports {mod or name}: not "
+                                "modelled")
+        return val if name is None else getattr(val, name)
+    mi = ModuleInterp(importer)
+    try:
+        globs = mi.run_module(repo.tree(FL), "feat_logic")
+    except ModelRaise as e:
+        raise AnalysisError(f"feat_logic module code raises {e}")
+    fe = globs.get("feature_exists")
+    if not isinstance(fe, Func):
+        raise AnalysisError(f"{FL}: feature_exists vanished")
+    return fe
+
+
 class Model:
     def __init__(self, repo):
         self.repo = repo
@@ -200,9 +243,10 @@ class Model:
         g["np"] = Namespace("np", all=np_all, arange=np_arange, sum=np_sum,
                             diff=NP.diff, array=NP.array,
                             asarray=NP.asarray)
+        self.feature_exists = load_feature_logic(repo)
         g["dfn"] = Namespace(
             "dfn", config_keys=self.cfgkeys,
-            feature_exists=lambda f: f in KNOWN_FEATURES,
+            feature_exists=self.feature_exists,
             scalar_feature_exists=lambda f: f in KNOWN_FEATURES)
         g["h5py"] = Namespace("h5py", Dataset=H5Dataset, Group=H5Group)
         g["RTDC_HDF5"] = Ds
@@ -484,6 +528,32 @@ def r131(ctx, repo, model, pattern, sets):
         seeded("unknown feature", "check_features_unknown_hdf5",
                f"unknown feature '{nm}'", m, has(f"'{nm}'"),
                f"HDF5 feature '{nm}' unknown to dclab")
+    # the pattern-defined feature names: exactly "ml_score_" + 3 x [0-9a-z]
+    fnode = repo.func(FL, "feature_exists")
+    for nm, want in (("ml_score_abc", True), ("ml_score_0z9", True),
+                     ("ml_score_abcd", False), ("ml_score_ab", False),
+                     ("ml_score_ABC", False), ("ml_score_a-c", False),
+                     ("xml_score_abc", False), ("ml_score_abc_raw", False),
+                     ("ml_score_abc\n", False), ("deform", True),
+                     ("deformx", False)):
+        try:
+            got = bool(model.feature_exists(nm))
+            err = None
+        except ModelRaise as e:
+            got, err = None, e.name
+        ok = err is None and got == want
+        ctx.ob("R13.1", ok, f"feature_exists({nm!r}) is {want}" if ok else
+               f"feature_exists({nm!r}) "
+               + (f"raises {err}" if err else f"is {got}") + f", the "
+               f"documented feature names say {want} (ml_score_??? with "
+               "exactly three characters of [0-9a-z])", node=fnode,
+               key=f"{FL}::feature_exists::{nm!r}")
+        if not want and nm.startswith(("ml_", "xml_")) and "\n" not in nm:
+            def m(ds, nm=nm):
+                ds.h5file["events"][nm] = H5Dataset((N,), ds.h5file.file)
+            seeded("unknown feature", "check_features_unknown_hdf5",
+                   f"unknown feature '{nm}'", m, has(f"'{nm}'"),
+                   f"HDF5 feature '{nm}' unknown to dclab")
     clean("unknown feature", "check_features_unknown_hdf5")
 
     # 4 missing mandatory metadata
@@ -794,6 +864,50 @@ def r132(ctx, repo, model, pattern, chk):
                   "without fluorescence"), node=hf,
                key=f"{CHK}::IntegrityChecker.has_fluorescence::{what}")
 
+    # the checker judges the file's own content: the dataset it opens has
+    # basins disabled (interpreted __init__, load_file recorded)
+    init = model.methods.get("__init__")
+    if init is None:
+        raise AnalysisError("IntegrityChecker.__init__ vanished")
+    loads = []
+
+    def load_file(path, *a, **kw):
+        loads.append((path, a, kw))
+        return model.base()
+    ws = Namespace("catch")
+    ws.__dict__["__enter__"] = lambda: []
+    g = dict(model.globs)
+    g.update(load_file=load_file, RTDCBase=type(model.base()),
+             warnings=Namespace("warnings",
+                                catch_warnings=lambda **k: ws,
+                                simplefilter=lambda *a, **k: None))
+    me = model.checker.instance()
+    model.interp.steps = 0
+    try:
+        Func(init, g, model.interp)(me, "model.rtdc")
+    except ModelRaise as e:
+        raise AnalysisError(f"IntegrityChecker.__init__ raises {e} in the "
+                            "model")
+    ok = len(loads) == 1 and loads[0][0] == "model.rtdc" and loads[0][
+        2].get("enable_basins", None) is False
+    ctx.ob("R13.2", ok, "a path is opened with basins disabled: the checks "
+           "see the file's own features only" if ok else
+           "the dataset is opened with " + (
+               f"load_file{loads[0][1:]}" if loads else "no load_file call")
+           + ": basin features leak into `in self.ds` while `_events` holds "
+           "the file's own features (verdict depends on other files)",
+           node=init, key=f"{CHK}::IntegrityChecker.__init__::basins "
+           "disabled")
+    given = model.base()
+    me = model.checker.instance()
+    n0 = len(loads)
+    Func(init, g, model.interp)(me, given)
+    ok = me.__dict__.get("ds") is given and len(loads) == n0
+    ctx.ob("R13.2", ok, "a dataset instance is checked as given" if ok else
+           "a dataset instance is not checked as given", node=init,
+           key=f"{CHK}::IntegrityChecker.__init__::instance as given",
+           nontrivial=False)
+
     # refuses filtered datasets instead of silently checking a subset
     ds = model.base()
     ds.filter.all.n_true = N - 1
@@ -1081,6 +1195,7 @@ def r133(ctx, repo, model):
     rm = repo.func(WR, "RTDCWriter.rectify_metadata")
     interp = model.interp
     g = {"h5py": Namespace("h5py", Dataset=H5Dataset, Group=H5Group)}
+    module_level(repo.tree(WR), g, interp, assigns=False)
     writer = ClassModel(repo.cls(WR, "RTDCWriter"), g, interp,
                         strict_instances=True)
     fails = {"event count": [], "roi size": [], "samples per event": [],
@@ -1211,6 +1326,103 @@ def r133(ctx, repo, model):
            node=ex, label="exit rectifies")
 
 
+class Img(Namespace):
+    """image-like array stand-in: shape, dtype, reshape, [np.newaxis]"""
+
+    def __init__(self, shape, dtype, clsname="ndarray"):
+        super().__init__("array", shape=tuple(shape), dtype=dtype,
+                         __class__=Namespace("cls", __name__=clsname))
+
+    def reshape(self, *shape):
+        if len(shape) == 1 and isinstance(shape[0], (tuple, list)):
+            shape = tuple(shape[0])
+        n = 1
+        for x in shape:
+            n *= x
+        m = 1
+        for x in self.shape:
+            m *= x
+        if n != m:
+            raise ValueError("cannot reshape")
+        return Img(shape, self.dtype)
+
+    def __getitem__(self, i):
+        if i is None:
+            return Img((1,) + self.shape, self.dtype)
+        raise AnalysisError("model: image indexing")
+
+    def __mul__(self, o):
+        return Img(self.shape, self.dtype)
+
+    __rmul__ = __mul__
+
+    def __len__(self):
+        return self.shape[0]
+
+
+def r133_images(ctx, repo, model):
+    """a single 2-d image / mask is one event: both image writers hand a
+    (1, H, W) array to write_ndarray on every path (boolean or not)"""
+    interp = model.interp
+    U8, F32 = "uint8", "float32"
+
+    def asarray(a, dtype=None):
+        return Img(a.shape, a.dtype if dtype is None else dtype)
+
+    def atleast_2d(a):
+        if isinstance(a, (list, tuple)):
+            return Img((len(a),) + a[0].shape, a[0].dtype)
+        return a
+    g = {"np": Namespace("np", atleast_2d=atleast_2d, asarray=asarray,
+                         array=asarray, newaxis=None, uint8=U8,
+                         float32=F32, bytes_=lambda x: x,
+                         expand_dims=lambda a, axis=0: Img(
+                             (1,) + a.shape, a.dtype))}
+    module_level(repo.tree(WR), g, interp, assigns=False)
+    writer = ClassModel(repo.cls(WR, "RTDCWriter"), g, interp,
+                        strict_instances=True)
+    cases = [("write_image_grayscale", "2-d boolean mask", (H, W), bool,
+              {"is_boolean": True}),
+             ("write_image_grayscale", "2-d uint8 mask", (H, W), U8,
+              {"is_boolean": True}),
+             ("write_image_grayscale", "2-d image", (H, W), U8,
+              {"is_boolean": False}),
+             ("write_image_grayscale", "3-d boolean masks", (N, H, W), bool,
+              {"is_boolean": True}),
+             ("write_image_grayscale", "3-d images", (N, H, W), U8,
+              {"is_boolean": False}),
+             ("write_image_float32", "2-d float image", (H, W), F32, {}),
+             ("write_image_float32", "3-d float images", (N, H, W), F32,
+              {})]
+    for meth, label, shape, dtype, kw in cases:
+        f = repo.func(WR, f"RTDCWriter.{meth}")
+        got = []
+
+        def write_ndarray(group=None, name=None, data=None, dtype=None):
+            got.append(getattr(data, "shape", None))
+            return Namespace("dset", attrs=Namespace(
+                "attrs", create=lambda *a, **k: None))
+        me = writer.instance(write_ndarray=write_ndarray)
+        interp.steps = 0
+        try:
+            Func(f, g, interp)(me, Namespace("group"), "mask",
+                               Img(shape, dtype), **kw)
+            err = None
+        except ModelRaise as e:
+            err = e
+        want = shape if len(shape) == 3 else (1,) + tuple(shape)
+        ok = err is None and got == [want]
+        ctx.ob("R13.3", ok,
+               f"{meth}: a {label} {shape} is written as {want}" if ok else
+               f"{meth}: a {label} of shape {shape} "
+               + (f"raises {err.name}" if err else
+                  f"is handed to write_ndarray as {got}") + f", expected "
+               f"{want} (a single 2-d image is one event; otherwise the "
+               "feature is stored with H times too many events and the "
+               "writer's own file fails the integrity check)", node=f,
+               key=f"{WR}::RTDCWriter.{meth}::{label}")
+
+
 # ----------------------------------------------------------------------
 
 def _guard(rid, fn, *args):
@@ -1252,6 +1464,7 @@ def run(ctx):
     _guard("R13.1", r131, ctx, repo, model, pattern, sets)
     _guard("R13.2", r132, ctx, repo, model, pattern, chk)
     _guard("R13.3", r133, ctx, repo, model)
+    _guard("R13.3", r133_images, ctx, repo, model)
     ctx.model = model
     ctx.sets = sets
 
@@ -1710,4 +1923,75 @@ TWINS = list(TWINS) + [
       '                shape = self.h5file["events"][imfeat][0].shape\n'
       '                break\n'
       '        else:\n            shape = None\n')),
+]
+
+# round-3 seeded changes
+MUTANTS = list(MUTANTS) + [
+    ("ml_score names matched by prefix only", FL,
+     ('            and len(name) == len("ml_score_???")\n', ""), "R13.1"),
+    ("ml_score pattern as an unanchored regular expression", FL,
+     [("from . import feat_const\n",
+       "import re\n\nfrom . import feat_const\n\n"
+       "ML_SCORE_REGEXP = re.compile(\"^ml_score_[0-9a-z]{3}\")\n"),
+      ('        if (name.startswith("ml_score_")\n'
+       '            and len(name) == len("ml_score_???")\n'
+       '            and name[-3] in valid_chars\n'
+       '            and name[-2] in valid_chars\n'
+       '                and name[-1] in valid_chars):',
+       '        if ML_SCORE_REGEXP.match(name):')], "R13.1"),
+    ("ml_score accepts upper-case characters", FL,
+     ('        valid_chars = "0123456789abcdefghijklmnopqrstuvwxyz"',
+      '        valid_chars = "0123456789abcdefghijklmnopqrstuvwxyz"'
+      '.upper() + "abcdefghijklmnopqrstuvwxyz"'), "R13.1"),
+    ("checker opens the file with basins enabled", CHK,
+     ("                self.ds = load_file(path_or_ds, enable_basins=False)",
+      "                self.ds = load_file(path_or_ds)"), "R13.2"),
+    ("checker explicitly enables basins", CHK,
+     ("                self.ds = load_file(path_or_ds, enable_basins=False)",
+      "                self.ds = load_file(path_or_ds, enable_basins=True)"),
+     "R13.2"),
+    ("2-d promotion only for non-boolean images", WR,
+     [("        if len(data.shape) == 2:\n"
+       "            # put single event in 3D array\n"
+       "            data = data.reshape(1, data.shape[0], data.shape[1])\n\n"
+       "        if is_boolean:", "        if is_boolean:"),
+      ("                data = np.asarray(data, dtype=np.uint8) * 255\n",
+       "                data = np.asarray(data, dtype=np.uint8) * 255\n"
+       "        elif len(data.shape) == 2:\n"
+       "            data = data.reshape(1, data.shape[0], data.shape[1])\n")],
+     "R13.3"),
+    ("float image: 2-d promotion dropped", WR,
+     ("        if len(data.shape) == 2:\n"
+      "            # put single event in 3D array\n"
+      "            data = data[np.newaxis]\n", ""), "R13.3"),
+    ("2-d promotion with exchanged axes", WR,
+     ("            data = data.reshape(1, data.shape[0], data.shape[1])",
+      "            data = data.reshape(data.shape[0], 1, data.shape[1])"),
+     "R13.3"),
+]
+TWINS = list(TWINS) + [
+    ("ml_score pattern as an anchored regular expression", FL,
+     [("from . import feat_const\n",
+       "import re\n\nfrom . import feat_const\n\n"
+       "ML_SCORE_REGEXP = re.compile(\"ml_score_[0-9a-z]{3}\")\n"),
+      ('        if (name.startswith("ml_score_")\n'
+       '            and len(name) == len("ml_score_???")\n'
+       '            and name[-3] in valid_chars\n'
+       '            and name[-2] in valid_chars\n'
+       '                and name[-1] in valid_chars):',
+       '        if ML_SCORE_REGEXP.fullmatch(name):')]),
+    ("checker passes the basin switch through a dict", CHK,
+     ("                self.ds = load_file(path_or_ds, enable_basins=False)",
+      "                kw = dict(enable_basins=False)\n"
+      "                self.ds = load_file(path_or_ds, **kw)")),
+    ("2-d promotion via np.newaxis in the grayscale writer", WR,
+     ("            data = data.reshape(1, data.shape[0], data.shape[1])",
+      "            data = data[np.newaxis]")),
+    ("writer gains an argument-free instance attribute used on close", WR,
+     [("        self._group_sizes = {}\n",
+       "        self._group_sizes = {}\n        self._pending = set()\n"),
+      ("        # ignore empty features in the checks further below\n",
+       "        for name in sorted(self._pending):\n"
+       "            pass\n        self._pending.clear()\n"
+       "        # ignore empty features in the checks further below\n")]),
 ]
